@@ -101,3 +101,54 @@ def top_level_arm_patterns(block):
             continue
         i += 1
     return pats
+
+
+def top_level_arms(block):
+    """(pattern, body) pairs of the top-level arms of a match block `{ ... }`; body is verbatim text (a `{...}` block
+    or an expression without the trailing comma)."""
+    body = block[1:-1]
+    arms = []
+    i, n = 0, len(body)
+    start = 0
+    while i < n:
+        j = core._skip_noncode(body, i)
+        if j != i:
+            i = j
+            continue
+        c = body[i]
+        if c in "([{":
+            i = core.match_brace(body, i) + 1
+            continue
+        if body.startswith("=>", i):
+            pat = body[start:i].strip()
+            i += 2
+            while i < n and body[i].isspace():
+                i += 1
+            bstart = i
+            while i < n:
+                j = core._skip_noncode(body, i)
+                if j != i:
+                    i = j
+                    continue
+                if body[i] in "([{":
+                    k = core.match_brace(body, i)
+                    is_block = body[i] == "{" and i == bstart
+                    i = k + 1
+                    if is_block:
+                        kk = i
+                        while kk < n and body[kk].isspace():
+                            kk += 1
+                        if kk < n and body[kk] in ".?":
+                            continue
+                        break
+                    continue
+                if body[i] == ",":
+                    break
+                i += 1
+            arms.append((pat, body[bstart:i].strip()))
+            while i < n and (body[i].isspace() or body[i] == ","):
+                i += 1
+            start = i
+            continue
+        i += 1
+    return arms
